@@ -517,6 +517,9 @@ def _passive_features(case):
         "measured": "all" if len(m) == d_rest else "subset",
         "order": "ascending" if list(m) == sorted(m) else "permuted",
         "order_site": "passive.simulation_steps.particle_number_measurement",
+        # (lead) a complex Gram matrix is its own input class: the known finding F19 (Gram matrix
+        # contracted transposed) is invisible for real ones, so it must not share a signature with them
+        **({"gram": "complex" if ov.get("complex") else "real"} if (ov is not None and ov["kind"] == "gram") else {}),
     }
 
 
